@@ -458,3 +458,6 @@ def run(ctx):
 
     # 5. scripts ----------------------------------------------------------------------------------
     ctx.run_given('script', script_strategy(ctx), prop_script(ctx), ctx.scale(1200, 50000))
+    if ctx.thorough():
+        from vlib import fuzz
+        fuzz.run_fuzz(ctx, 'script', runs=300000, max_len=400)
